@@ -17,8 +17,61 @@ TRUSTED = ["syn parser", "num-bigint: mod_inverse returns None for a non-inverti
 MA = "circom_algebra/src/modular_arithmetic.rs"
 
 
+_mod_cache = {}
+
+
 def module_fns():
-    return {f["name"]: f for _q, f in fns_in_file(MA)}
+    """the functions of modular_arithmetic.rs with their parameters renamed by position: (left, right, field) for the
+    binary operations, (elem, field) for the unary ones; a one-parameter helper's parameter is `field` when every call
+    site passes the caller's field.  The rules below can then speak about `field` whatever the source calls it."""
+    import copy
+
+    import alpha
+    import facts as _facts
+
+    key = id(_facts.ast())
+    if key in _mod_cache:
+        return _mod_cache[key]
+    fns = {f["name"]: copy.deepcopy(f) for _q, f in fns_in_file(MA)}
+
+    def rename_params(f, names):
+        ps = [i for i in f["sig"]["inputs"] if not i.get("self")]
+        mp = {}
+        for i_, nm in zip(ps, names):
+            if i_["pat"]["k"] == "PIdent" and i_["pat"]["name"] != nm:
+                mp[i_["pat"]["name"]] = nm
+        if mp:
+            # simultaneous renaming through temporaries (a swap of names must not capture)
+            tmp = {a: "__tmp_%d" % i for i, a in enumerate(mp)}
+            alpha.rename(f["body"], tmp)
+            alpha.rename(f["body"], {tmp[a]: b for a, b in mp.items()})
+            for i_ in ps:
+                alpha.rename(i_["pat"], tmp)
+                alpha.rename(i_["pat"], {tmp[a]: b for a, b in mp.items()})
+
+    for name, f in fns.items():
+        ps = [i for i in f["sig"]["inputs"] if not i.get("self")]
+        if name == "modulus":
+            continue
+        if len(ps) == 3:
+            rename_params(f, ["left", "right", "field"])
+        elif len(ps) == 2:
+            rename_params(f, ["elem", "field"])
+    for name, f in fns.items():
+        ps = [i for i in f["sig"]["inputs"] if not i.get("self")]
+        if len(ps) == 1 and name != "modulus":
+            sites = [c for g in fns.values() for c in walk(g["body"]) if c["k"] == "Call" and c["func"]["k"] == "Path" and last(c["func"]["path"]) == name and len(c["args"]) == 1]
+            if sites and all(render(strip(c["args"][0])) == "field" for c in sites):
+                rename_params(f, ["field"])
+            else:
+                rename_params(f, ["elem"])
+    from astlib import simplify_body
+
+    for f in fns.values():
+        f["body_as_written"] = f["body"]
+        f["body"] = simplify_body(f["body"])
+    _mod_cache[key] = fns
+    return fns
 
 
 # ------------------------------------------------------------------ C16.1 / C16.2
@@ -515,18 +568,22 @@ def rule_comparisons(ctx):
     if v is None:
         ctx.missing(R, "val")
     else:
-        le = let_env(v["body"])
+        from pathcond import split_cond
+
         ifs = [x for x in walk(v["body"]) if x["k"] == "If"]
         ok = False
         det = ""
-        if len(ifs) == 1:
-            c = ifs[0]["cond"]
-            ct = render(c).replace(" ", "").replace("&", "")
-            cdef = render(strip(le.get("c", {"k": "Path", "path": "?"}))).replace(" ", "").replace("&", "") if "c" in le else ""
+        if len(ifs) == 1 and ifs[0]["else"] is not None:
             then = render(strip(ifs[0]["then"])).replace(" ", "")
-            els = render(strip(ifs[0]["else"])).replace(" ", "") if ifs[0]["else"] else ""
-            det = "c=%s cond=%s then=%s else=%s" % (cdef, ct, then, els)
-            ok = cdef in ("((field/BigInt::from(2))+1)", "((field/2)+1)") and ct in ("((c<=elem)(elem<field))", "((elem>=c)(elem<field))") and then == "(elem-field)" and els == "elem"
+            els = render(strip(ifs[0]["else"])).replace(" ", "")
+            # the branch that returns elem - field is taken exactly when (field/2)+1 <= elem < field
+            neg_branch = True if then == "(elem-field)" else (False if els == "(elem-field)" else None)
+            other = els if neg_branch else then
+            fs = split_cond(ifs[0]["cond"], neg_branch) if neg_branch is not None else []
+            texts = sorted(("" if f[2] else "!") + render(f[1]).replace(" ", "").replace("&", "") for f in fs if f[0] == "if")
+            det = "returns elem-field under %s, otherwise %s" % (texts, other)
+            lower = ("(((field/BigInt::from(2))+1)<=elem)", "(((field/2)+1)<=elem)")
+            ok = neg_branch is not None and other == "elem" and len(fs) == 2 and len(texts) == 2 and "(elem<field)" in texts and any(x in texts for x in lower)
         ctx.check(R, "val/signed-representative", ok, det, site(MA, v))
     ce = fns.get("comparable_element")
     if ce is not None:
